@@ -578,21 +578,33 @@ func TestC13(t *testing.T) {
 			maxK = 6
 		}
 		for _, s := range seqs(alpha, 2, maxK) {
+			if len(s) == 6 {
+				// length 6 over {limit/2, limit} only
+				skip := false
+				for _, v := range s {
+					if v == L/2+1 {
+						skip = true
+					}
+				}
+				if skip {
+					continue
+				}
+			}
 			for _, packed := range []bool{false, true} {
 				switch {
 				case !thorough:
-					add(ownScenario("slow", s, packed, gateSlow), 1, 1, 30*time.Second)
-				case len(s) <= 3:
-					add(ownScenario("slow", s, packed, gateSlow), 1, 2, 120*time.Second)
-				default:
 					add(ownScenario("slow", s, packed, gateSlow), 1, 1, 60*time.Second)
+				case len(s) <= 3:
+					add(ownScenario("slow", s, packed, gateSlow), 1, 2, 300*time.Second)
+				default:
+					add(ownScenario("slow", s, packed, gateSlow), 1, 1, 300*time.Second)
 				}
 			}
 		}
 		// sizes just around the limit and tiny messages between large ones
 		for _, s := range [][]int{{L - 1, 2}, {L - 1, 2, L}, {2, L, 2, L - 1}, {L/2 - 1, L/2 + 1, L / 2}, {L, 2, 2, L}, {2, 2, 2, 2, 2, 2}} {
 			for _, packed := range []bool{false, true} {
-				add(ownScenario("slow", s, packed, gateSlow), 1, 1, 30*time.Second)
+				add(ownScenario("slow", s, packed, gateSlow), 1, 1, 60*time.Second)
 			}
 		}
 		// 2. the application lets one message through per millisecond
@@ -601,15 +613,16 @@ func TestC13(t *testing.T) {
 			stepK = 4
 		}
 		for _, s := range seqs([]int{L / 2, L}, 2, stepK) {
-			add(ownScenario("step", s, false, gateStep), 1, 1, 30*time.Second)
+			add(ownScenario("step", s, false, gateStep), 1, 1, 60*time.Second)
 			if thorough {
-				add(ownScenario("step", s, true, gateStep), 1, 1, 30*time.Second)
+				add(ownScenario("step", s, true, gateStep), 1, 1, 60*time.Second)
 			}
 		}
 		// 3. the owner closes the connection while the sender is being held back
 		for _, s := range [][]int{{L, L}, {L / 2, L / 2, L / 2}, {L, L / 2, L, L / 2}} {
-			add(ownScenario("stop", s, false, gateStop), 1, 1, 30*time.Second)
+			add(ownScenario("stop", s, false, gateStop), 1, 1, 60*time.Second)
 		}
+		// 3b. the application stops the held-back mini-protocol, the connection lives on for another second
 		for _, n := range []int{3, 16} {
 			many := make([]int, n)
 			for i := range many {
